@@ -155,6 +155,24 @@ def _handlers_never_return(r, fn, what):
                 break
 
 
+def _rv(fn, n):
+    """Value expression of return node n; a pure temporary (a local with a single definition whose only use is
+    this return, e.g. `rv = E; return rv`) is replaced by its defining expression."""
+    v = n.ast.value
+    for _i in range(4):
+        if not isinstance(v, ast.Name):
+            break
+        loads = [x for x in ast.walk(fn.node) if isinstance(x, ast.Name) and x.id == v.id and isinstance(x.ctx, ast.Load)]
+        defs = [m for m in fn.cfg().nodes if v.id in node_stores(m)]
+        if len(loads) != 1 or len(defs) != 1 or v.id in fn.params:
+            break
+        d = assign_value(defs[0], v.id)
+        if d is None:
+            break
+        v = d
+    return v
+
+
 def _kw(call, name, pos=None):
     v = kwarg(call, name)
     if v is None and pos is not None:
@@ -1207,7 +1225,7 @@ def run(ctx: Context):
             raise AnchorVanished("get_segsize has no return")
         for n in rets:
             r.site(gs, n.ast, "segment size answer")
-            v = n.ast.value
+            v = _rv(gs, n)
             if v is None:
                 judge("None", gs, n.ast)
                 continue
@@ -1382,7 +1400,7 @@ def run(ctx: Context):
             if len(regs) == 1 and len(cbs) == 1:
                 cb = _cb_func(idx, m, cbs[0].target)
                 return cb is not None and cb in fns and all_paths_seed(cb) and \
-                    all(attr_path(x.ast.value) == cbs[0].recv for x in m.cfg().find(is_return))
+                    all(attr_path(_rv(m, x)) == cbs[0].recv for x in m.cfg().find(is_return))
             return False
         gu = idx.func(CHECKER + "._download_and_verify._got_ueb")
         order = []
